@@ -13,7 +13,7 @@
 EXTENDS Universes, TLC, Json
 
 \* ---- universe -------------------------------------------------------------
-R9Names == <<cA, <<97, 47, 98>>, <<97, 126, 98>>, <<126, 49>>, <<48>>, <<49>>, <<>>, <<97, 32, 98>>, <<47>>, <<126>>, <<126, 48>>, <<233>>, <<127>>, <<133, 97>>, <<233, 1>>, <<128512, 233, 10, 97>>, <<93, 46, 91>>, <<99, 91, 48, 93, 46, 91, 49, 93>>>>
+R9Names == <<cA, <<97, 47, 98>>, <<97, 126, 98>>, <<126, 49>>, <<48>>, <<49>>, <<>>, <<97, 32, 98>>, <<47>>, <<126>>, <<126, 48>>, <<233>>, <<127>>, <<133, 97>>, <<233, 1>>, <<128512, 233, 10, 97>>, <<93, 46, 91>>, <<99, 91, 48, 93, 46, 91, 49, 93>>, <<91, 42, 93>>, <<97, 91, 63, 98, 93>>, <<36, 46, 105, 91, 42, 93, 46, 105, 100>>>>
 R9NamesT == R9Names \o << <<39>>, <<97, 39, 98>>, <<92>>, <<34>>, <<10>>, <<45, 49>>, <<91, 48, 93>> >>
 R9N == IF Thorough THEN R9NamesT ELSE R9Names
 R9Leaf == <<JInt(1), JStr(cA), JArr(<<JInt(1), JInt(2)>>), JObj(<<cA>>, <<JInt(1)>>)>>
@@ -37,6 +37,19 @@ Dangling(d) ==
        [] v.t = "obj" -> << Append(ls[n], NameStep(<<122, 122>>)), Append(ls[n], IdxStep(0)), Append(ls[n], IdxStep(1)) >>
        [] OTHER -> << Append(ls[n], IdxStep(0)), Append(ls[n], NameStep(cA)) >> ])
 
+\* Normalized Paths (as text) of locations no document of this universe has: indexes far beyond every array (also beyond
+\* 32- and 64-bit machine integers, which TLC's own integers cannot hold - hence strings)
+FarPaths == << <<36, 91, 52, 50, 57, 52, 57, 54, 55, 50, 57, 54, 93>>,
+              <<36, 91, 52, 50, 57, 52, 57, 54, 55, 50, 57, 55, 93>>,
+              <<36, 91, 52, 50, 57, 52, 57, 54, 55, 50, 57, 56, 93>>,
+              <<36, 91, 49, 56, 52, 52, 54, 55, 52, 52, 48, 55, 51, 55, 48, 57, 53, 53, 49, 54, 49, 55, 93>>,
+              <<36, 91, 49, 93, 91, 52, 50, 57, 52, 57, 54, 55, 50, 57, 54, 93>>,
+              <<36, 91, 49, 93, 91, 52, 50, 57, 52, 57, 54, 55, 50, 57, 55, 93>>,
+              <<36, 91, 50, 93, 91, 39, 49, 39, 93, 91, 52, 50, 57, 52, 57, 54, 55, 50, 57, 54, 93>>,
+              <<36, 91, 39, 48, 39, 93, 91, 52, 50, 57, 52, 57, 54, 55, 50, 57, 55, 93>>,
+              <<36, 91, 50, 49, 52, 55, 52, 56, 51, 54, 52, 56, 93>>,
+              <<36, 91, 54, 53, 53, 51, 54, 93>>,
+              <<36, 91, 50, 53, 54, 93>> >>
 MaxOps == IF Thorough THEN 3 ELSE 2
 
 VARIABLES di, doc, ops, phase, paths
@@ -63,6 +76,11 @@ Write(n, vi) == /\ phase = "run" /\ Len(ops) < MaxOps
                       /\ ops' = Append(ops, OpRec("write", loc, R9Vals[vi], ex, nd))
                 /\ UNCHANGED <<di, phase, paths>>
 
+\* reading (or trying to write) through a far path finds nothing and changes nothing
+FarRef(k) == /\ phase = "run" /\ Len(ops) < MaxOps
+             /\ ops' = Append(ops, [op |-> "far", loc |-> <<>>, path |-> FarPaths[k], exists |-> FALSE, value |-> R9Vals[1], after |-> doc])
+             /\ UNCHANGED <<di, doc, phase, paths>>
+
 Finish == /\ phase = "run" /\ Len(ops) >= 1
           /\ phase' = "done" /\ UNCHANGED <<di, doc, ops, paths>>
 
@@ -75,6 +93,7 @@ Sample(n) == \/ Len(ops) = 0
 DeepPick(n) == ~IsDeep \/ n % 12 = 0 \/ n > Len(paths) - 6
 Next == \/ \E n \in 1..Len(paths) : Sample(n) /\ DeepPick(n) /\ Reference(n)
         \/ \E n \in 1..Len(paths) : Sample(n) /\ DeepPick(n) /\ \E vi \in 1..Len(R9Vals) : ((Len(ops) = 0 /\ ~IsDeep) \/ vi = 1 + ((n + Seed) % 3)) /\ Write(n, vi)
+        \/ \E k \in 1..Len(FarPaths) : (Len(ops) = 0 \/ (k + di + Seed) % 4 = 0) /\ FarRef(k)
         \/ Finish
 Spec == Init /\ [][Next]_vars
 
